@@ -32,7 +32,25 @@ HEADS = 'abcdefghkmnpqstuvwxyzABCDEFGHKMNPQSTUVWXYZ_'
 TAILS = 'abcxyzABCXYZ0123456789_'
 
 
+# sizes are an input dimension of their own (round 11): with LONG['p'] > 0 that share of the
+# identifiers is 24..56 characters long (generated lines beyond 160 columns, struct and file
+# names beyond 32 / 64 / 96 characters, small-string buffers exceeded)
+LONG = {'p': 0.0}
+WORDS = ['Temperature', 'Threshold', 'Was', 'Exceeded', 'Now', 'Controller', 'Firmware',
+         'Platform', 'Heating', 'Zone', 'Industrial', 'Automation', 'sensor', 'identifier',
+         'Configuration', 'Request', 'Response', 'Notification', '_with_', 'Measurement']
+
+
 def ident(rng: random.Random, style: Optional[str] = None) -> str:
+    short = _ident(rng, style)
+    if LONG['p'] and rng.random() < LONG['p']:
+        while len(short) < 24:
+            short += rng.choice(WORDS)
+        return short[:56].replace('__', '_x').rstrip('_') or short
+    return short
+
+
+def _ident(rng: random.Random, style: Optional[str] = None) -> str:
     """Identifier of a random shape: single letter, _x, X, x1, x_y, CamelCase ..."""
     while True:
         style_ = style or rng.choice(['single', 'under', 'camel', 'digit', 'snake', 'long'])
@@ -102,6 +120,8 @@ class GenOpts:
     ref_externs: float = 0.25       # externs whose C++ type is a reference (in-parameters only)
     mc_enum_family: bool = False    # the claim enum holds X next to an earlier NotX; X grants
     mc_no_outs: bool = False        # the multi-client interface has in-events only
+    big: bool = False               # sizes beyond the usual: counts of ten and more, long names
+    chain_depth: int = 0            # first a chain of that many nested namespaces (17, 33, 65 ...)
 
 
 @dataclass
@@ -119,6 +139,7 @@ class ModelGen:
     def __init__(self, rng: random.Random, opts: Optional[GenOpts] = None):
         self.rng = rng
         self.o = opts or GenOpts()
+        LONG['p'] = 0.5 if self.o.big else 0.0
         self.model = M.Model(working_dir=rng.choice(['/work', 'C:', '/home/u/prj']))
         self.root = NsNode([], [M.Namespace([], self.model.elements)])
         self.root.pieces[0].elements = self.model.elements
@@ -137,6 +158,8 @@ class ModelGen:
         """A count in lohi; now and then (GenOpts.many) a count from `many` - more than nine of
         something is a size class of its own (textual order of numbered names, single-digit
         assumptions)."""
+        if many is not None and self.o.big:
+            return self.rng.randint(many[0], many[1])
         if many is not None and self.o.many and self.rng.random() < self.o.many:
             return self.rng.randint(many[0], many[1])
         return self.rng.randint(lohi[0], lohi[1])
@@ -206,6 +229,21 @@ class ModelGen:
                 grow(node, depth + len(ids))
 
         grow(self.root, 0)
+        if o.chain_depth:
+            # a chain of nested namespaces far deeper than anything `grow` makes; the deepest
+            # nodes are listed several times so that declarations land there
+            parent = self.root
+            chain = []
+            for _ in range(o.chain_depth):
+                ids = [self._name(parent, rng.choice(['camel', 'single', 'snake', 'digit']))]
+                piece = M.Namespace(list(ids), [])
+                node = NsNode(parent.fqn + ids, [piece])
+                rng.choice(parent.pieces).elements.append(piece)
+                parent.children.append(node)
+                chain.append(node)
+                parent = node
+            self.nodes.extend(chain)
+            self.nodes.extend(chain[-2:] * 4)
 
     # -- declarations -------------------------------------------------------------------------
     def add_extern(self, node: Optional[NsNode] = None) -> Tuple[List[str], M.Extern]:
@@ -414,6 +452,18 @@ class ModelGen:
     def decls(self):
         return M.declared_names(self.model)
 
+    def add_padding(self, count: int):
+        """`count` more declarations in a namespace of their own that nothing refers to: the
+        model of a large project (hundreds of declarations) around the part under test."""
+        piece = M.Namespace(['QZPadding'], [])
+        node = NsNode(['QZPadding'], [piece])
+        self.root.pieces[0].elements.append(piece)
+        self.root.children.append(node)
+        for k in range(count):
+            s = M.SubInt([f'QZs{k}'], k, k + 1)
+            piece.elements.append(s)
+            self.subints.append((['QZPadding', f'QZs{k}'], s))
+
     def _ref(self, scope: List[str], target: List[str], kind: str) -> Optional[M.Ref]:
         sp = M.valid_spellings(self.decls(), scope, target, kind)
         if not sp:
@@ -434,7 +484,7 @@ class ModelGen:
             ename = fresh(rng, taken, rng.choice(['camel', 'single', 'snake', 'digit', 'under']))
             formals = []
             ftaken: set = set()
-            for _f in range(0 if rng.random() < 0.35 else self._rint(o.n_formals, (10, 12))):
+            for _f in range(0 if rng.random() < 0.35 else self._rint(o.n_formals, (4, 7) if o.big else (10, 12))):
                 if not self.externs:
                     break
                 xt, _x = rng.choice(self.externs)
@@ -479,6 +529,12 @@ class ModelGen:
         ptaken: set = {name[0].upper() + name[1:], name[0].lower() + name[1:]}
         wide = (5, 7) if (o.many and rng.random() < o.many) else None
         draw = (lambda lohi: rng.randint(*wide)) if wide else self._rint
+        if o.big and n_provides is None and n_requires is None:
+            # more than ten ports on one side (a second digit in every count and index)
+            if rng.random() < 0.5:
+                n_provides, n_requires = rng.randint(10, 12), rng.randint(1, 3)
+            else:
+                n_provides, n_requires = rng.randint(1, 3), rng.randint(10, 12)
         spec = [('provides', False, draw(o.n_provides) if n_provides is None else n_provides),
                 ('requires', False, draw(o.n_requires) if n_requires is None else n_requires),
                 ('requires', True, self._rint(o.n_injected) if n_injected is None else n_injected)]
